@@ -211,6 +211,17 @@ func solve(dir, name, query string, timeout time.Duration, all bool) SolveResult
 		if allTimeout {
 			final.Result = "timeout"
 		}
+		// every back end rejected the query text: a defect of the generator
+		// (ill-sorted term), never evidence about the code
+		allError := len(final.All) > 0
+		for _, v := range final.All {
+			if v != "error" {
+				allError = false
+			}
+		}
+		if allError {
+			final.Result = "error"
+		}
 	}
 	return final
 }
